@@ -169,7 +169,7 @@ def _resolve_json_pointers(pattern: str, content: Dict[str, Any]) -> List[jsonpo
                     (key, doc[key]) for key in doc.keys()
                     if fnmatch.fnmatchcase(key, part)
                 ]
-            elif isinstance(doc, Sequence):
+            elif isinstance(doc, Sequence) and not isinstance(doc, (str, bytes)):
                 keys_and_docs = [
                     (str(i), doc[i]) for i in range(len(doc))
                     if fnmatch.fnmatchcase(str(i), part)
